@@ -5,6 +5,7 @@ from ..core.source import AnalysisError, parent
 from ..core import paths
 from ..core.sigbind import bind
 from ..core.exprnf import NF, parse_expr
+from ..core.astutil import u
 
 META = {
     "explanation": "R10a: every attribute use and call EventKernel.__init__/event makes on a pluggable component is bound "
@@ -236,6 +237,26 @@ def r10b(ctx):
     init_ok = all(o in ("ray_paths.append([])", "polarizations.append([])") for o in others)
     ctx.check(init_ok, "R10b", c, "ray_paths / polarizations are otherwise only initialised with one empty list per antenna",
               f"other growth sites: {others}", key_detail="other growth sites")
+    # one *distinct* list per antenna (a repeated list `[[]] * n` would make all antennas share one list)
+    for nm in ("ray_paths", "polarizations"):
+        inits = [s_ for s_ in fn.body if isinstance(s_, ast.Assign) and len(s_.targets) == 1 and u(s_.targets[0]) == nm]
+        ok, how = False, ""
+        if len(inits) == 1:
+            v = inits[0].value
+            how = u(v)
+            if isinstance(v, ast.List) and not v.elts:
+                # filled by a loop over the antennas appending a fresh [] each time
+                loops = [l for l in fn.body if isinstance(l, ast.For) and any(isinstance(c, ast.Call) and u(c.func) == f"{nm}.append" and len(c.args) == 1
+                                                                              and isinstance(c.args[0], ast.List) and not c.args[0].elts for c in ast.walk(l))]
+                ok = len(loops) == 1 and "len(self.antennas)" in u(loops[0].iter)
+                how += " + " + (u(loops[0])[:60] if loops else "no filling loop")
+            elif isinstance(v, ast.ListComp) and isinstance(v.elt, ast.List) and not v.elt.elts and "self.antennas" in u(v.generators[0].iter):
+                ok = True
+            elif isinstance(v, ast.BinOp) and isinstance(v.op, ast.Mult):
+                ok = False
+                how += "  (list repetition shares ONE inner list between all antennas)"
+        ctx.check(ok, "R10b", c, f"`{nm}` holds one distinct empty list per antenna before the particle loop", how, key_detail=f"{nm} per-antenna lists",
+                  loc=ctx.loc("pyrex.kernel", inits[0]) if inits else None)
     # the polarization appended is the one handed to propagate
     app = [n for n in ast.walk(sol_loop) if is_call("append", f"polarizations[{ivar}]")(n)]
     prop = [n for n in ast.walk(sol_loop) if is_call("propagate", pvar)(n)]
@@ -401,6 +422,9 @@ def run(ctx):
 
 SELFTEST = {
     "faults": [
+        {"name": "per-antenna lists built by repetition (shared list)", "file": "pyrex/kernel.py",
+         "old": "        ray_paths = []\n        polarizations = []\n        for i in range(len(self.antennas)):\n            ray_paths.append([])\n            polarizations.append([])\n",
+         "new": "        ray_paths = [[]] * len(self.antennas)\n        polarizations = [[]] * len(self.antennas)\n", "rule": "R10b"},
         {"name": "continue instead of receiving the EmptySignal", "file": "pyrex/kernel.py",
          "old": "                        ant.receive(\n                            EmptySignal(self.signal_times+path.tof,\n                                        value_type=EmptySignal.Type.field)\n                        )",
          "new": "                        continue", "rule": "R10b"},
@@ -421,6 +445,9 @@ SELFTEST = {
          "rule": "R10a", "construct": "solutions"},
     ],
     "benign": [
+        {"name": "per-antenna lists by comprehension", "file": "pyrex/kernel.py",
+         "old": "        ray_paths = []\n        polarizations = []\n        for i in range(len(self.antennas)):\n            ray_paths.append([])\n            polarizations.append([])\n",
+         "new": "        ray_paths = [[] for _ in self.antennas]\n        polarizations = [[] for _ in self.antennas]\n"},
         {"name": "rename loop variable", "file": "pyrex/kernel.py", "old": "events_thrown=self.gen.count-self._gen_count)",
          "new": "events_thrown=-self._gen_count+self.gen.count)"},
         {"name": "extra debug log in loop", "file": "pyrex/kernel.py", "old": "                    polarizations[i].append(nu_pol)\n",
